@@ -269,7 +269,8 @@ def main():
                       "the theorems give the threshold characterisation and the mean identity",
                       "hard sigmoid/tanh surrogates are float32 computations: adjacency is judged against the float64 surrogate with the "
                       "neighbouring integer allowed at exact integers"]
-  return rep.finish(vlib.TRUSTED_COMMON + ["model Quant/Stoch.v is hand-written; tie = exact comparison with the implementation under injected draws"])
+  return rep.finish(vlib.TRUSTED_COMMON + ["translator tools/translate/stochgen.py regenerates coq/gen/StochGen.v (stochastic_round with the draw as a parameter); Link/StochLink.v proves it equal to Quant/Stoch.v; stochastic_round_po2 and its quadratic variant are tied by correspondence (Quant/StochPo2.v) only",
+                                          "model Quant/Stoch.v is hand-written; tie = exact comparison with the implementation under injected draws"])
 
 
 if __name__ == "__main__":
